@@ -21,7 +21,7 @@ MB == [cand |-> "2", rank |-> 1, isvote |-> TRUE]
 MU == [cand |-> "1", rank |-> 2, isvote |-> FALSE]
 ContestChoices == {<<MA>>, <<MB, MU>>, <<>>}
 Sessions == [tab : {5}, batch : {3}, rec : {"7", "X"}, group : {1, 2}, layout : {"flat", "cards"}, keys : KeyOrders,
-             o1 : ContestChoices, o2 : {<<MB>>}, m1 : [has : BOOLEAN, marks : {<<MB>>, <<>>}], m2 : [has : BOOLEAN, marks : {<<MA, MA>>}]]
+             o1 : ContestChoices, o2 : {<<MB>>}, m1 : [has : BOOLEAN, marks : {<<MB>>, <<>>, <<MU, MB>>}], m2 : [has : BOOLEAN, marks : {<<MA, MA>>}]]
 Options == [useCurrent : BOOLEAN, enforce : BOOLEAN, include : {{}, {1}, {2}}, pool : {{}, {1}}]
 
 Init == IF Mode = "marks" THEN marks = <<>> /\ sess = "none" /\ opts = "none"
